@@ -82,13 +82,15 @@ def gen_language(rng, h):
             n, cs = 0, []
         elif kind == "poly":
             n = rng.randint(1, 2)
-            params = [E.gen_sty(rng, h, n, 1, p_var=0.6, p_wild=0.05) for _ in range(rng.randint(1, 3))]
-            res = E.gen_sty(rng, h, n, 1, p_var=0.7, p_wild=0)
+            dp = 2 if rng.random() < 0.3 else 1       # F(G(y)): a variable two levels down
+            params = [E.gen_sty(rng, h, n, dp, p_var=0.6, p_wild=0.05) for _ in range(rng.randint(1, 3))]
+            res = E.gen_sty(rng, h, n, dp, p_var=0.7, p_wild=0)
             cs = []
         elif kind == "constr":
             n = rng.randint(1, 2)
-            params = [E.gen_sty(rng, h, n, 1, p_var=0.7, p_wild=0.05) for _ in range(rng.randint(1, 2))]
-            res = E.gen_sty(rng, h, n, 1, p_var=0.7, p_wild=0)
+            dp = 2 if rng.random() < 0.3 else 1
+            params = [E.gen_sty(rng, h, n, dp, p_var=0.7, p_wild=0.05) for _ in range(rng.randint(1, 2))]
+            res = E.gen_sty(rng, h, n, dp, p_var=0.7, p_wild=0)
             cs = [E.gen_constraint(rng, h, n) for _ in range(rng.randint(1, 2))]
         else:  # higher-order
             n = rng.randint(1, 2)
